@@ -186,7 +186,8 @@ fn cert_accessors(kind: &str, a: &Cert, b: &Cert) -> R<()> {
 fn roa_prefix(i: u64) -> (IpAddr, u8, Option<u8>) {
     match i {
         1 => (IpAddr::V4(Ipv4Addr::new(10, 0, 0, 0)), 8, None),
-        2 => (IpAddr::V4(Ipv4Addr::new(192, 0, 2, 0)), 24, Some(32)),
+        // nested in item 1 (pushed after it, the builder's resource chain sees a block inside its predecessor); max length = family limit
+        2 => (IpAddr::V4(Ipv4Addr::new(10, 1, 0, 0)), 16, Some(32)),
         3 => (IpAddr::V6(Ipv6Addr::from(0x2001_0db8u128 << 96)), 32, Some(48)),
         _ => (IpAddr::V4(Ipv4Addr::new(0, 0, 0, 0)), 0, Some(0)),
     }
